@@ -7,7 +7,8 @@ From CR Require Import Model.Assign Proofs.Assign.
 Import ListNotations.
 Open Scope Z_scope.
 
-(* every history of add / remove / assign (any time_steps, obstacle_ids) / read-with-assignment in
+(* every history of add / remove / assign (any time_steps, obstacle_ids) / read-with-assignment / open-without-
+   assignment in
    which assign is used with use_center_only=False: the registries are exactly the inverse of the stored
    shape assignment, restricted to the obstacles the scenario contains *)
 Theorem C07_registries_inverse : forall W ops,
@@ -45,6 +46,42 @@ Theorem C07_assign_all_complete : forall W ops, wf W -> all_ok W ops init = true
   (forall o, In o (dynamics s) -> tf W o <> None -> forall t, In t (horizon W o) ->
      dget t (opt_dict (sa (fst r) o)) = Some (sm W o t) /\ dget t (opt_dict (ca (fst r) o)) = Some (cin W o t)).
 Proof. exact reachable_assign_all. Qed.
+
+(* reading a file with lanelet_assignment=True: every obstacle of the file carries the lookup of its own centre /
+   occupancy at EVERY time step of its horizon (each state of [initial_state] + state_list is looked up on its own,
+   e.g. also a state that shares the position of the previous one but not its orientation); with
+   C07_registries_inverse the registries are the inverse of exactly these sets *)
+Theorem C07_read_complete : forall W s os o, In o os ->
+  let s' := fst (step W s (ORead os)) in
+  ish s' o = Some (sm W o (t0 W o)) /\ ic s' o = Some (cin W o (t0 W o)) /\
+  (kind W o = Dynamic -> tf W o <> None -> forall t, In t (horizon W o) ->
+     dget t (opt_dict (sa s' o)) = Some (sm W o t) /\ dget t (opt_dict (ca s' o)) = Some (cin W o t)).
+Proof. exact read_complete. Qed.
+
+(* the reader and assign_obstacles_to_lanelets() store the same sets for the same obstacle *)
+Theorem C07_read_is_assign : forall W s os ops o, wf W -> all_ok W ops init = true -> In o os ->
+  present (run W ops init) o = true ->
+  let s1 := fst (step W s (ORead os)) in
+  let s2 := fst (assign W None None false (run W ops init)) in
+  ish s1 o = ish s2 o /\ ic s1 o = ic s2 o /\
+  (kind W o = Dynamic -> tf W o <> None -> forall t, In t (horizon W o) ->
+     dget t (opt_dict (sa s1 o)) = dget t (opt_dict (sa s2 o)) /\
+     dget t (opt_dict (ca s1 o)) = dget t (opt_dict (ca s2 o))).
+Proof. exact read_is_assign. Qed.
+
+(* non-vacuity of the reader clauses: obstacle 31 stands in lanelet 1 over the time steps 0..3 (centre lookups
+   constant) and turns on the spot, its occupancy reaching lanelet 2 at the time steps 1 and 2 only; the file
+   route (ORead) and the route "open without assignment, then assign" (OLoad, OAssign) store the same *)
+Example C07_read_nonvacuous :
+  let W := {| kind := fun _ => Dynamic; t0 := fun _ => 0; tf := fun _ => Some 3;
+              cin := fun _ _ => [1]; sm := fun _ t => if (1 <=? t) && (t <=? 2) then [1; 2] else [1] |} in
+  let s := run W [ORead [31]] init in
+  let s2 := run W [OLoad [31]; OAssign None None false] init in
+  all_ok W [ORead [31]] init = true /\ all_ok W [OLoad [31]; OAssign None None false] init = true /\
+  sa s 31 = Some [(0, [1]); (1, [1; 2]); (2, [1; 2]); (3, [1])] /\ sa s2 31 = sa s 31 /\ ca s2 31 = ca s 31 /\
+  dreg s 2 0 = None /\ dreg s 2 1 = Some [31] /\ dreg s 2 2 = Some [31] /\ dreg s 2 3 = None /\
+  dreg s2 2 1 = Some [31] /\ dreg s2 2 3 = None /\ dreg s 1 3 = Some [31].
+Proof. vm_compute. repeat split; reflexivity. Qed.
 
 (* removing never raises; afterwards the obstacle is gone from the scenario and from every registry *)
 Theorem C07_remove_never_fails : forall W s o, snd (remove_obstacle W o s) = Done.
@@ -107,6 +144,9 @@ Print Assumptions C07_registries_consistent.
 Print Assumptions C07_stored_is_lookup.
 Print Assumptions C07_assign_never_raises.
 Print Assumptions C07_assign_all_complete.
+Print Assumptions C07_read_complete.
+Print Assumptions C07_read_is_assign.
+Print Assumptions C07_read_nonvacuous.
 Print Assumptions C07_remove_never_fails.
 Print Assumptions C07_remove_clears.
 Print Assumptions C07_nonvacuous.
